@@ -43,6 +43,8 @@ def run_case(case, profile=False):
     finally:
         if profile:
             sys.setprofile(None)
+    if out['outcome'] == 'aborted' and ctx.pending_violation is not None:
+        out.update(outcome='violation', label=ctx.pending_violation[0], detail=str(ctx.pending_violation[1])[:2000])
     out['goals'] = sorted(ctx.goals)
     out['functions'] = sorted(funcs)
     out['counters'] = dict(ctx.counters)
